@@ -175,6 +175,18 @@ THEOREM LoopSummary == LSpec => []Returned
   BY DEF LInv, Returned
 <1> QED BY <1>1, LInitInv, LNextInv, PTL DEF LSpec
 
+\* the code encrypts w.plaintext[:ptLim] when it flushes; StreamOps.tla encrypts the buffer contents: the same, because
+\* a flush happens only when the copy filled the buffer to its limit (input was left over)
+THEOREM FlushedBufferIsFull ==
+  LInv /\ Iter /\ pc' = "loop" => buf + Min(Cap(segs + 1) - buf, pend) = Cap(segs + 1)
+<1> SUFFICES ASSUME LInv, Iter, pc' = "loop" PROVE buf + Min(Cap(segs + 1) - buf, pend) = Cap(segs + 1)
+  OBVIOUS
+<1>1. buf <= Cap(segs + 1) /\ Cap(segs + 1) \in Nat /\ buf \in Nat /\ pend \in Nat
+  BY Call, Params DEF LInv, Iter, Cap
+<1>2. pend - Min(Cap(segs + 1) - buf, pend) # 0
+  BY DEF Iter
+<1> QED BY <1>1, <1>2 DEF Min
+
 \* termination measure (pend, buf > 0), lexicographic: an iteration returns, or consumes input, or - once, when the
 \* call found a full buffer - flushes it and continues with an empty buffer
 THEOREM LoopProgress == LInv /\ Iter => (pc' = "done" \/ pend' < pend \/ (pend' = pend /\ buf > 0 /\ buf' = 0))
